@@ -581,8 +581,13 @@ def run(tier):
                  dict(rep, impl_around=es[max(0, j - 20):j + 10], model_around=o_sort[max(0, j - 19):j + 11]))
         if es2 != es:
             viol(key, "sorting twice differs from sorting once (wire)", rep)
-        if o_d1 != [1, 0] or o_d2 != [1, 0]:
-            raise RuntimeError("model diff s s / diff s (sort s) is not empty: contradicts the proved theorems")
+        if o_d1 != [1, 0]:
+            raise RuntimeError("model diff s s is not empty: contradicts the proved theorem C19_diff_refl")
+        if o_d2 != [1, 0]:
+            # the second schema is the IMPLEMENTATION's sorted schema: by C19_sort_no_diff the model finds no
+            # difference between s and any reordering of s, so a difference means sorting changed more than order
+            viol(key, "the model's change detector finds differences between the schema and the implementation's "
+                      f"lexicographic_sort_schema of it (wire {o_d2[:12]})", dict(rep, model_diff=o_d2[:40]))
 
     import time
     ck.extra['t_sort'] = round(time.time() - ck.t0, 1)
